@@ -1233,7 +1233,7 @@ int main(int argc, char** argv) {
                 Evaluator eo(H(t[1])), ee(H(t[2]));
                 int nb = std::stoi(t[3]);
                 auto tape = eo.getDeck()->tape;
-                int pts = 0, gpts = 0, gbad = 0, fpts = 0, fbad = 0, fmiss = 0, ibad = 0, pbad = 0, ppts = 0, abad = 0, bpts = 0, bbad = 0;
+                int pts = 0, gpts = 0, gbad = 0, fpts = 0, fbad = 0, fmiss = 0, ibad = 0, pbad = 0, ppts = 0, abad = 0, bpts = 0, bbad = 0, vskip = 0;
                 std::string info;
                 auto note = [&](const std::string& what, const Eigen::Vector3f& p) {
                     if (info.empty()) info = " first=" + what + "@" + hex32(p.x()) + "," + hex32(p.y()) + "," + hex32(p.z());
@@ -1290,6 +1290,11 @@ int main(int argc, char** argv) {
                             float v1 = vpp.first, v2 = eo.value(p, *vpp.second);
                             if (memcmp(&v1, &vo, 4) != 0 || memcmp(&v2, &vo, 4) != 0) { ++pbad; note("pointpush-value", p); }
                         }
+                        // derivative information is compared only where the two trees agree on the VALUE bit for bit: when
+                        // they differ (an ill-conditioned constant such as sin(1e13) decides a min / max, or an exact tie
+                        // A == z holds on one evaluation path and misses by an ulp on the other) the trees sit in
+                        // different regimes and neither gradient is wrong; the value itself is judged by the caller
+                        if (memcmp(&vo, &ve, 4) != 0) { ++vskip; continue; }
                         // gradients at unambiguous points
                         Eigen::Vector4f de = ee.deriv(p);
                         eo.set(p, 0); ee.set(p, 0);
@@ -1423,7 +1428,7 @@ int main(int argc, char** argv) {
                 out("OC pts=" + std::to_string(pts) + " gpts=" + std::to_string(gpts) + " gbad=" + std::to_string(gbad)
                     + " fpts=" + std::to_string(fpts) + " fbad=" + std::to_string(fbad) + " fmiss=" + std::to_string(fmiss) + " ibad=" + std::to_string(ibad)
                     + " ppts=" + std::to_string(ppts) + " pbad=" + std::to_string(pbad) + " abad=" + std::to_string(abad)
-                    + " bpts=" + std::to_string(bpts) + " bbad=" + std::to_string(bbad) + info);
+                    + " bpts=" + std::to_string(bpts) + " bbad=" + std::to_string(bbad) + " vskip=" + std::to_string(vskip) + info);
             }
             else if (c == "progress") {
                 // progress h alg workers minfeat lx ly lz ux uy uz scenario
